@@ -40,6 +40,8 @@ func (s *sigNode) String() string {
 		return s.kind
 	case "star":
 		return "(" + s.kids[0].String() + ")*"
+	case "iter":
+		return "[" + s.kids[0].String() + "]"
 	}
 	var parts []string
 	for _, k := range s.kids {
@@ -121,6 +123,13 @@ func (a *nfa) build(s *sigNode, in int, dead int, head int) int {
 			return dead
 		}
 		return out
+	case "iter":
+		end := a.state()
+		e := a.build(s.kids[0], in, dead, end)
+		if e != dead {
+			a.eps[e] = append(a.eps[e], end)
+		}
+		return end
 	case "star":
 		h := a.state()
 		a.eps[in] = append(a.eps[in], h)
@@ -385,7 +394,14 @@ func (x *sigExtractor) block(list []ast.Stmt) *sigNode {
 			}
 			seq.kids = append(seq.kids, x.exprSig(s.Cond)...)
 			body := x.loopBody(s.Body.List)
-			seq.kids = append(seq.kids, &sigNode{kind: "star", kids: []*sigNode{body}})
+			// a loop with a small constant trip count (the four quadrants) is unrolled exactly
+			if k, ok := constTripCount(x.info, s); ok && k <= 8 {
+				for i := 0; i < k; i++ {
+					seq.kids = append(seq.kids, &sigNode{kind: "iter", kids: []*sigNode{body}})
+				}
+			} else {
+				seq.kids = append(seq.kids, &sigNode{kind: "star", kids: []*sigNode{body}})
+			}
 		case *ast.RangeStmt:
 			body := x.loopBody(s.Body.List)
 			seq.kids = append(seq.kids, &sigNode{kind: "star", kids: []*sigNode{body}})
@@ -497,4 +513,32 @@ func (p *Program) ruleLayout(c *Check) {
 		}
 	}
 	c.Floor("E9.I1", n, 3, "writer/reader families of the compressed indexes")
+}
+
+// constTripCount: for i := 0; i < K; i++ with constant K.
+func constTripCount(info *types.Info, f *ast.ForStmt) (int, bool) {
+	as, ok := f.Init.(*ast.AssignStmt)
+	if !ok || len(as.Lhs) != 1 || len(as.Rhs) != 1 {
+		return 0, false
+	}
+	id, ok := as.Lhs[0].(*ast.Ident)
+	if !ok {
+		return 0, false
+	}
+	if z, ok := constInt(info, as.Rhs[0]); !ok || z != 0 {
+		return 0, false
+	}
+	be, ok := f.Cond.(*ast.BinaryExpr)
+	if !ok || be.Op != token.LSS || types.ExprString(be.X) != id.Name {
+		return 0, false
+	}
+	k, ok := constInt(info, be.Y)
+	if !ok || k < 0 {
+		return 0, false
+	}
+	inc, ok := f.Post.(*ast.IncDecStmt)
+	if !ok || inc.Tok != token.INC || types.ExprString(inc.X) != id.Name {
+		return 0, false
+	}
+	return int(k), true
 }
